@@ -207,8 +207,10 @@ class BuiltinsMixin:
             return self.new_container(VSet(d.key, d.dom))
         if isinstance(d, (VTuple,)) or (isinstance(d, VList) and d.items is not None):
             return self.builtins_set_from_items(d.items)
+        if isinstance(d, VList) and getattr(d, "from_map", None) is not None:
+            return self.new_container(VSet(d.from_map.key, d.from_map.dom))
         if isinstance(d, VList):
-            ks = d.elem.leaves()[0].sort()
+            ks = d.elem.leaves()[0].sort().range()
             if len(d.elem.leaves()) != 1:
                 raise Unsupported("set() of a list of composite values")
             dom = self.path.const("set_dom", z3.ArraySort(ks, BOOL))
@@ -406,7 +408,11 @@ class BuiltinsMixin:
                     knone, k = k.isnone, k.val
                 return vals.ite(z3.And(z3.Not(knone), r.has(k)), r.get(k), default)
             if name == "keys":
-                return self.enum_map(r)[0] if not self.spec_mode else VSet(r.key, r.dom)
+                if self.spec_mode:
+                    return VSet(r.key, r.dom)
+                ks = self.enum_map(r)[0]
+                ks.from_map = r
+                return ks
             if name == "items":
                 return self.enum_map(r)[1]
             if name == "values":
